@@ -1,16 +1,33 @@
 open Model
 open Zutil
 
-let opt = function "_" -> None | s -> Some (z_of_int (int_of_string s))
+(* decimal string -> Z of any size (indices / slice bounds beyond the OCaml int range) *)
+let zparse (s : string) : z =
+  let n = String.length s in
+  if n <= 17 then z_of_int (int_of_string s)
+  else begin
+    let neg = s.[0] = '-' in
+    let start = if neg || s.[0] = '+' then 1 else 0 in
+    let ten = z_of_int 10 in
+    let acc = ref Z0 in
+    for i = start to n - 1 do
+      let c = Char.code s.[i] - 48 in
+      if c < 0 || c > 9 then failwith "int";
+      acc := Z.add (Z.mul !acc ten) (z_of_int c)
+    done;
+    if neg then Z.opp !acc else !acc
+  end
+
+let opt = function "_" -> None | s -> Some (zparse s)
 
 (* key:  i N | s a b c *)
 let parse_key toks = match toks with
-  | "i" :: n :: rest -> (KInt (z_of_int (int_of_string n)), rest)
+  | "i" :: n :: rest -> (KInt (zparse n), rest)
   | "s" :: a :: b :: c :: rest -> (KSlice (opt a, opt b, opt c), rest)
   | _ -> failwith "key"
 
 let rec pairs = function
-  | y :: x :: rest -> (z_of_int (int_of_string y), z_of_int (int_of_string x)) :: pairs rest
+  | y :: x :: rest -> (zparse y, zparse x) :: pairs rest
   | [] -> [] | _ -> failwith "pairs"
 
 let parse_key2 toks = match toks with
@@ -28,7 +45,24 @@ let show = function
   | Ok (R1 l) -> "1 " ^ zs l
   | Ok (R2 (h, w, l)) -> "2 " ^ zs [h; w] ^ " : " ^ zs l
 
+let rec split_semi acc = function
+  | ";" :: rest -> (List.rev acc, rest)
+  | t :: rest -> split_semi (t :: acc) rest
+  | [] -> (List.rev acc, [])
+
 let handle toks = match toks with
+  (* chained indexing a[k1][k2]: the model applied to its own result *)
+  | "CH" :: h :: w :: rest ->
+      let h = int_of_string h and w = int_of_string w in
+      let (k1, k2) = split_semi [] rest in
+      (match getitem2 (z_of_int h) (z_of_int w) (iota (h * w)) (parse_key2 k1) with
+       | Err e -> show (Err e)
+       | Ok (R2 (h2, w2, l)) -> show (getitem2 h2 w2 l (parse_key2 k2))
+       | Ok (R1 l) ->
+           (match k2 with
+            | "1" :: r -> let (k, _) = parse_key r in show (getitem1 l k)
+            | _ -> failwith "chain: 1-D result needs an int/slice key")
+       | Ok (RScalar _) -> failwith "chain on a scalar")
   | "G2" :: h :: w :: rest ->
       let h = int_of_string h and w = int_of_string w in
       show (getitem2 (z_of_int h) (z_of_int w) (iota (h * w)) (parse_key2 rest))
@@ -38,7 +72,7 @@ let handle toks = match toks with
   | "G1" :: n :: rest ->
       let (k, _) = parse_key rest in show (getitem1 (iota (int_of_string n)) k)
   | "RS" :: n :: h :: w :: _ ->
-      show (reshape (iota (int_of_string n)) (z_of_int (int_of_string h)) (z_of_int (int_of_string w)))
+      show (reshape (iota (int_of_string n)) (zparse h) (zparse w))
   | _ -> "EXN bad request"
 
 let () = main_loop handle
